@@ -1,5 +1,5 @@
 """C02 — each needed task runs exactly once per invocation; nothing else runs."""
-from .. import graph, model, projgen
+from .. import graph, model, projgen, reallayer
 from ..runner import Outcome
 
 ID = "C02"
@@ -9,7 +9,8 @@ RULE = ("Hypothesis-generated graph cases (as C01) with emphasis on cache state:
         "one's versions. Oracle = independent model of the needed set (DFS from T that neither enters nor includes an "
         "experiment with a reusable version). Non-trivial = closure has a task reachable by >=2 paths, or >=1 cached "
         "experiment hides a non-empty subtree. Distinct = SHA-1 of case JSON."
-        " Also generated: the same task name in different packages; one dependency listed twice under two spellings (then only 'at most once' and the progress counters are judged).")
+        " Also generated: the same task name in different packages; one dependency listed twice under two spellings (then only 'at most once' and the progress counters are judged)."
+        + reallayer.RULE_NOTE)
 ASSUMPTIONS = ["git is disabled in these projects, so 'reusable cached result' = any recorded version (C05 checks the git rule)"]
 ESSENTIAL = ["two_paths", "cached_hides_subtree", "cached_and_also_directly_needed", "again", "second_invocation",
              "failures_present"]
@@ -37,7 +38,8 @@ def _strategy(draw, tier):
 
 
 def strategy(tier):
-    return _strategy(tier)
+    real = st.one_of(reallayer.real_case(flags=("again",), max_tasks=8), reallayer.real_case(flags=("again",), outcomes="none"))
+    return reallayer.mixed(_strategy(tier), real)
 
 
 def examples(tier):
@@ -69,6 +71,11 @@ def run_dup_mixed(case, root):
 
 
 def run_case(case):
+    if case.get("layer") == "real":
+        res = reallayer.run_real(case)
+        v, lb, nt, brief = judge(case, res, {int(i) for i in case.get("seeded", {})}, "again" in case["flags"],
+                                 rows0_n(res["rows_before"]), res["rows_after"])
+        return Outcome(v, sorted(set(lb + graph.shape_labels(case) + ["real_processes"])), nt, brief)
     root = projgen.new_scratch("c02")
     try:
         if case.get("dup_mixed"):
